@@ -119,6 +119,17 @@ func c01Script(c *vf.Case, w *sim.World, lostKeyPrefix string) {
 			c.Logf("  peer of %s resets", o)
 			w.PeerReset(o)
 		default:
+			if (o.Kind == sim.KConnUDP || o.Kind == sim.KUDP) && r.Chance(1, 2) {
+				// a burst of small datagrams: a read-all on the connected socket then makes dozens of successful short reads
+				// in a row before the queue is empty
+				k := r.Range(20, 60)
+				for i := 0; i < k; i++ {
+					w.PeerWrite(o, r.Range(1, 4))
+				}
+				c.Logf("  peer of %s sends a burst of %d small datagrams", o, k)
+				c.Count("datagram_bursts", 1)
+				break
+			}
 			got := w.PeerWrite(o, 3)
 			c.Logf("  peer of %s writes 3 bytes (%d taken)", o, got)
 		}
